@@ -1,5 +1,7 @@
 import S3db.Model.Box
 import S3db.Lemmas.BoxLemmas
+import S3db.Model.Facts
+import S3db.Gen.Facts
 /-!
 # C18 — node encryption: what is written can be read back, and only what verifies is accepted
 
@@ -438,5 +440,28 @@ theorem legacy_long_unreadable_witness :
   refine ⟨rfl, rfl, fun m hm h => ?_⟩
   have := (legacy_long_readable_iff wKey wNonce m rfl).1 h 0 (by omega)
   exact witness_blocks_differ this
+
+/-! ## 9: the passphrase path
+
+`V1NodeEncryptor(passphrase)` is `encrypt`/`decrypt` under the key `deriveKey(passphrase, nil)`;
+`deriveKey` is argon2id over the base64 of its arguments with a salt hashed from them — a function
+of its arguments that keeps no state and leaves them alone (`passphrase_facts`: the source text
+of the three functions is the known one).  The key derivation itself is not modelled: it enters
+as an arbitrary function `kdf`.  That different passphrases give keys that do not open each
+other's data is a cryptographic ASSUMPTION (collision resistance of argon2id, unforgeability of
+Poly1305); the box stream tries five different passphrases on every third message. -/
+
+/-- 9a. every encryptor built from the same passphrase reads what any of them wrote -/
+theorem same_passphrase_reads (kdf : Bytes → Bytes) (pass pass' nonce m : Bytes)
+    (hp : pass = pass') (hn : nonce.length = 24) :
+    decrypt (kdf pass') (encryptWith (kdf pass) nonce m) = some m := by
+  subst hp; exact decrypt_encrypt _ _ _ hn
+
+/-- 9b. … and writes the same bytes (so an unchanged node is not stored twice) -/
+theorem same_passphrase_same_ciphertext (kdf : Bytes → Bytes) (pass pass' nonce m : Bytes)
+    (hp : pass = pass') : encryptWith (kdf pass) nonce m = encryptWith (kdf pass') nonce m := by
+  subst hp; rfl
+
+theorem passphrase_facts : S3db.Gen.facts.deriveKeyAsExpected = true := by decide
 
 end S3db.Props.C18
